@@ -244,6 +244,47 @@ def with_pass(pos, kind):
     L.append(f'{P}return acc')
     return nm, '\n'.join(L) + '\n'
 
+# ------------------------------------------------------------------ pinned shapes of recorded defects (known_findings.json)
+# every run reproduces them, so they are reported as KNOWN-FINDING independently of the seed; harness/c12.py tags a violation
+# by the SHAPE of the source (`shape_findings`), not by these names
+KNOWN = [
+('t_loop_target_shadow', '''@fp.fpy
+def t_loop_target_shadow(i0: fp.Real, i1: fp.Real):
+    with fp.FP64:
+        i = i0
+        s = i0
+        for i in range(fp.round(3)):
+            s = s + i
+        return s + i
+''', [(10.0, 0.0), (3.0, 5.0)]),
+('t_range_negative', '''@fp.fpy
+def t_range_negative(i0: fp.Real, i1: fp.Real):
+    with fp.FP64:
+        s = i0
+        for i in range(i1):
+            s = s + i
+        return s
+''', [(1.0, -2.0), (1.0, 3.0)]),
+('t_range2_negative', '''@fp.fpy
+def t_range2_negative(i0: fp.Real, i1: fp.Real):
+    with fp.FP64:
+        s = i0
+        for i in range(i0, i1):
+            s = s + i
+        return s
+''', [(4.0, 1.0), (1.0, 4.0)]),
+('t_while_cond_ifexpr', '''@fp.fpy
+def t_while_cond_ifexpr(i0: fp.Real, i1: fp.Real):
+    with fp.FP64:
+        k = fp.round(0)
+        s = i0
+        while (k if k < fp.round(2) else k + fp.round(1)) < fp.round(3):
+            s = s + i1
+            k = k + fp.round(1)
+        return s
+''', [(1.0, 2.0)]),
+]
+
 def bundle_programs(thorough: bool = False):
     out = []
     orders = ['sorted', 'reverse', 'interleaved']
@@ -265,4 +306,4 @@ def bundle_programs(thorough: bool = False):
     for pi, pos in enumerate(USES):
         kinds = ['redef', 'intro', 'second'] if thorough else [['redef', 'intro'], ['intro', 'second'], ['second', 'redef']][pi % 3]
         for kind in kinds: out.append(with_pass(pos, kind))
-    return [(name, src, list(ARGS)) for name, src in out]
+    return [(name, src, list(ARGS)) for name, src in out] + [(n, s_, list(a)) for n, s_, a in KNOWN]
